@@ -36,6 +36,9 @@ def run_one(item):
             outs.append((prop, r.returncode if (r.returncode != 1 or viol) else 99, keys[:3],
                          (r.stdout + r.stderr)[-400:] if not (r.returncode in (0, 1) and (viol or r.returncode == 0)) else ""))
         caught = [o for o in outs if o[1] == 1]
+        if not caught and item.get("expect") == "masked":
+            # documented: a second layer of the code under test still enforces the property with this edit applied
+            return dict(item, outcome="masked-as-documented", results=outs, wall=round(time.time() - t0, 1))
         return dict(item, outcome="caught" if caught else "MISSED", results=outs, wall=round(time.time() - t0, 1))
     finally:
         shutil.rmtree(scratch, ignore_errors=True)
@@ -61,7 +64,8 @@ def main():
                 b.setdefault("tier", "quick")
                 BREAKS.append(b)
         for b in BREAKS:
-            items.append(dict(name=b["name"], props=[b["prop"]], file=b["file"], old=b["old"], new=b["new"], tier=b["tier"]))
+            items.append(dict(name=b["name"], props=[b["prop"]], file=b["file"], old=b["old"], new=b["new"], tier=b["tier"],
+                              expect=b.get("expect")))
     sd = os.path.join(ROOT, "seeded")
     if a.seeded and os.path.isdir(sd):
         for d in sorted(os.listdir(sd)):
@@ -89,7 +93,7 @@ def main():
                 f.write("| %s | %s | %s |\n" % (r["name"], r["outcome"], "; ".join(
                     "%s rc=%d %s" % (o[0], o[1], ", ".join(k.split(" count=")[0].replace("key=", "") for k in o[2]))
                     for o in r.get("results", [])) or r.get("detail", "")))
-    missed = [r for r in res if r["outcome"] != "caught"]
+    missed = [r for r in res if r["outcome"] not in ("caught", "masked-as-documented")]
     print("%d planted changes, %d caught, %d not caught" % (len(res), len(res) - len(missed), len(missed)))
     return 0 if not missed else 1
 
